@@ -133,28 +133,145 @@ theorem reuseList_no_panic : ∀ rs seen, hasNilStrategyList rs = false → (reu
     · rename_i k hk; rw [hk] at hr; simp [Res.isPanic] at hr
 end
 
+mutual
+/-- (as fixed) a route accepted by `validateRecursive` has no strategy wrapper without payload -/
+theorem validateRec_ok_noNil : ∀ r, validateRec r = .ok () → hasNilStrategy r = false
+  | .unknown _ _, h => by simp [validateRec] at h
+  | .pool _ _ _, _ => by simp [hasNilStrategy]
+  | .poolNil _ _, h => by simp [validateRec] at h
+  | .seriesNil _ _, h => by simp [validateRec] at h
+  | .parallelNil _ _, h => by simp [validateRec] at h
+  | .series din dout rs, h => by
+    unfold validateRec at h
+    split at h
+    · simp at h
+    · simpa [hasNilStrategy] using seriesLoop_ok_noNil rs din dout h
+  | .parallel din dout rs ws, h => by
+    unfold validateRec at h
+    split at h
+    · simp at h
+    · split at h
+      · simp at h
+      · simpa [hasNilStrategy] using parallelLoop_ok_noNil rs ws din dout h
+theorem seriesLoop_ok_noNil : ∀ rs cur dout, seriesLoop cur dout rs = .ok () → hasNilStrategyList rs = false
+  | [], _, _, _ => by simp [hasNilStrategyList]
+  | r :: rest, cur, dout, h => by
+    unfold seriesLoop at h
+    split at h
+    · rename_i u hv
+      split at h
+      · simp at h
+      · have h1 := validateRec_ok_noNil r (by rw [hv])
+        have h2 := seriesLoop_ok_noNil rest _ _ h
+        simp [hasNilStrategyList, h1, h2]
+    · simp at h
+    · simp at h
+theorem parallelLoop_ok_noNil : ∀ rs ws din dout, parallelLoop din dout rs ws = .ok () → hasNilStrategyList rs = false
+  | [], _, _, _, _ => by simp [hasNilStrategyList]
+  | _ :: _, [], _, _, h => by simp [parallelLoop] at h
+  | r :: rest, w :: ws, din, dout, h => by
+    unfold parallelLoop at h
+    split at h
+    · rename_i u hv
+      split at h
+      · simp at h
+      · split at h
+        · simp at h
+        · split at h
+          · simp at h
+          · split at h
+            · simp at h
+            · have h1 := validateRec_ok_noNil r (by rw [hv])
+              have h2 := parallelLoop_ok_noNil rest ws din dout h
+              simp [hasNilStrategyList, h1, h2]
+    · simp at h
+    · simp at h
+end
+
+mutual
+/-- (as fixed) `validateRecursive` never panics, nil payloads included -/
+theorem validateRec_total : ∀ r, (validateRec r).isPanic = false
+  | .unknown _ _ => by simp [validateRec, Res.isPanic]
+  | .pool _ _ _ => by simp [validateRec, Res.isPanic]
+  | .poolNil _ _ => by simp [validateRec, Res.isPanic]
+  | .seriesNil _ _ => by simp [validateRec, Res.isPanic]
+  | .parallelNil _ _ => by simp [validateRec, Res.isPanic]
+  | .series din dout rs => by
+    unfold validateRec
+    split
+    · rfl
+    · exact seriesLoop_total rs din dout
+  | .parallel din dout rs ws => by
+    unfold validateRec
+    split
+    · rfl
+    · split
+      · rfl
+      · rename_i hl
+        exact parallelLoop_total rs ws din dout (by simpa using hl)
+theorem seriesLoop_total : ∀ rs cur dout, (seriesLoop cur dout rs).isPanic = false
+  | [], _, _ => by unfold seriesLoop; split <;> rfl
+  | r :: rest, cur, dout => by
+    have hr := validateRec_total r
+    unfold seriesLoop
+    split
+    · split
+      · rfl
+      · exact seriesLoop_total rest _ _
+    · rfl
+    · rename_i k hk; rw [hk] at hr; simp [Res.isPanic] at hr
+theorem parallelLoop_total : ∀ rs ws din dout, rs.length = ws.length → (parallelLoop din dout rs ws).isPanic = false
+  | [], _, _, _, _ => by unfold parallelLoop; rfl
+  | _ :: _, [], _, _, hl => by simp at hl
+  | r :: rest, w :: ws, din, dout, hl => by
+    have hr := validateRec_total r
+    unfold parallelLoop
+    split
+    · split
+      · rfl
+      · split
+        · rfl
+        · split
+          · rfl
+          · split
+            · rfl
+            · exact parallelLoop_total rest ws din dout (by simpa using hl)
+    · rfl
+    · rename_i k hk; rw [hk] at hr; simp [Res.isPanic] at hr
+end
+
+/-- T3, FULL STRENGTH (after the route.go fixes): `Route.Validate` never panics — nil receiver, nil strategy payloads,
+    invalid denoms, reused pools, empty series/parallel, mismatched or malformed weights, any nesting depth. -/
+theorem route_validate_no_panic (r : Option Route) : (Route.validate r).isPanic = false := by
+  cases r with
+  | none => simp [Route.validate, Res.isPanic]
+  | some r =>
+    simp only [Route.validate]
+    split
+    · rfl
+    · have h1 := validateRec_total r
+      cases hv : validateRec r with
+      | ok u =>
+        have hn := validateRec_ok_noNil r (by rw [hv])
+        have h2 := reuse_no_panic r [] hn
+        cases hu : reuse [] r with
+        | ok s => simp [recoverBlock, Res.isPanic]
+        | err e => simp [recoverBlock, Res.isPanic]
+        | panic k => rw [hu] at h2; simp [Res.isPanic] at h2
+      | err e => simp [Res.isPanic]
+      | panic k => rw [hv] at h1; simp [Res.isPanic] at h1
+
 /-- T3 (partial: the extra hypothesis is spelled out). `Route.Validate` never panics on a route without nil strategy
     payloads — every route decoded from protobuf wire bytes is such a route; reused pools, empty series/parallel,
     mismatched weights, malformed or non-positive weight strings, any nesting depth included. The full statement is false
     (Witness/C15.lean): a Go-constructed `&Route_Pool{Pool: nil}` and a nil receiver dereference nil. -/
-theorem route_validate_no_panic_partial (r : Route) (h : hasNilStrategy r = false) :
-    (Route.validate (some r)).isPanic = false := by
-  have h1 := validateRec_no_panic r h
-  have h2 := reuse_no_panic r [] h
-  simp only [Route.validate]
-  cases hv : validateRec r with
-  | ok _ =>
-    cases hu : reuse [] r with
-    | ok s => simp [recoverBlock, Res.isPanic]
-    | err e => simp [recoverBlock, Res.isPanic]
-    | panic k => rw [hu] at h2; simp [Res.isPanic] at h2
-  | err e => simp [Res.isPanic]
-  | panic k => rw [hv] at h1; simp [Res.isPanic] at h1
+theorem route_validate_no_panic_partial (r : Route) (_h : hasNilStrategy r = false) :
+    (Route.validate (some r)).isPanic = false := route_validate_no_panic (some r)
 
-example : (Route.validate (some (.pool "a" "b" 1))).cls = "ok" := by decide
-example : (Route.validate (some (.parallel "a" "b" [.pool "a" "b" 1, .pool "a" "b" 1] ["1", "1"]))).cls = "err" := by decide
-example : (Route.validate (some (.parallel "a" "b" [.pool "a" "b" 1] ["0"]))).cls = "err" := by decide
-example : (Route.validate (some (.series "a" "b" []))).cls = "err" := by decide
+example : (Route.validate (some (.pool "uaaa" "ubbb" 1))).cls = "ok" := by decide
+example : (Route.validate (some (.parallel "uaaa" "ubbb" [.pool "uaaa" "ubbb" 1, .pool "uaaa" "ubbb" 1] ["1", "1"]))).cls = "err" := by decide
+example : (Route.validate (some (.parallel "uaaa" "ubbb" [.pool "uaaa" "ubbb" 1] ["0"]))).cls = "err" := by decide
+example : (Route.validate (some (.series "uaaa" "ubbb" []))).cls = "err" := by decide
 
 /-! ### ForwardMetadata.Validate / SwapMetadata.Validate -/
 
@@ -191,9 +308,9 @@ theorem swapmeta_validate_no_panic (m : SwapMeta) : (m.validate).isPanic = false
       · exact forward_validate_no_panic _
 
 example : (SwapMeta.validate { route := none }).cls = "err" := by decide
-example : (SwapMeta.validate { route := some (.poolNil "a" "b") }).cls = "err" := by decide
-example : (SwapMeta.validate { route := some (.pool "a" "b" 1), strategy := .exactIn (some none) }).cls = "err" := by decide
-example : (SwapMeta.validate { route := some (.pool "a" "b" 1), strategy := .exactIn (some (some 5)) }).cls = "ok" := by decide
+example : (SwapMeta.validate { route := some (.poolNil "uaaa" "ubbb") }).cls = "err" := by decide
+example : (SwapMeta.validate { route := some (.pool "uaaa" "ubbb" 1), strategy := .exactIn (some none) }).cls = "err" := by decide
+example : (SwapMeta.validate { route := some (.pool "uaaa" "ubbb" 1), strategy := .exactIn (some (some 5)) }).cls = "ok" := by decide
 
 /-- T6. The whole memo path of the middleware (decode, `*m.Swap`, `Validate`) yields `ok` or `err`, never `panic`. -/
 theorem memo_path_no_panic (memo : Option J) :
